@@ -18,19 +18,106 @@ import ast
 from .model import FuncInfo, set_parents, own_nodes, _clone, _simple_expr
 
 
+def _has_return(node):
+    stack = [node]
+    while stack:
+        n = stack.pop()
+        if isinstance(n, ast.Return):
+            return True
+        if isinstance(n, (ast.FunctionDef, ast.AsyncFunctionDef, ast.Lambda, ast.ClassDef)) and n is not node:
+            continue
+        stack.extend(ast.iter_child_nodes(n))
+    return False
+
+
+def single_exit(stmts, ret, tail=None):
+    """the statement list with every ``return v`` turned into ``<ret> = v`` at the end of its path (early returns
+    become if/else nesting, the statements after them are copied into the branches that fall through);
+    None when a return sits inside a loop, try or with"""
+    if tail is None:
+        tail = [ast.Assign(targets=[ast.Name(id=ret, ctx=ast.Store())], value=ast.Constant(value=None))]
+    if not stmts:
+        return [_clone(t) for t in tail]
+    s, rest = stmts[0], stmts[1:]
+    if isinstance(s, ast.Return):
+        a = ast.Assign(targets=[ast.Name(id=ret, ctx=ast.Store())], value=_clone(s.value) if s.value is not None else ast.Constant(value=None))
+        return [ast.copy_location(a, s)]
+    if _has_return(s):
+        if not isinstance(s, ast.If):
+            return None
+        after = single_exit(rest, ret, tail)
+        if after is None:
+            return None
+        b = single_exit(s.body, ret, after)
+        o = single_exit(s.orelse, ret, after)
+        if b is None or o is None:
+            return None
+        n = ast.If(test=_clone(s.test), body=b, orelse=o)
+        return [ast.copy_location(n, s)]
+    after = single_exit(rest, ret, tail)
+    if after is None:
+        return None
+    return [_clone(s)] + after
+
+
 def _returns_ok(g):
+    """returns only as the last statement, or early returns that single_exit can turn into nesting (small functions only)"""
     body = g.node.body
-    for n in own_nodes(g.node):
-        if isinstance(n, ast.Return) and n is not body[-1]:
-            return False
-    return True
+    if all(not isinstance(n, ast.Return) or n is body[-1] for n in own_nodes(g.node)):
+        return True
+    nret = len([n for n in own_nodes(g.node) if isinstance(n, ast.Return)])
+    return nret <= 6 and single_exit(list(body), '_r') is not None
 
 
 def inlinable(g, f):
     a = g.node.args
-    return (g is not f and g.cls is None and g.parent is None and not g.decorators and not g.is_generator and
+    return (g is not f and (g.cls is None or (f.cls is not None and g.cls in (f.cls,))) and g.parent is None and not g.decorators and not g.is_generator and
             not a.vararg and not a.kwarg and not a.kwonlyargs and _returns_ok(g) and
             not any(isinstance(n, (ast.Global, ast.Nonlocal)) for n in own_nodes(g.node)) and not g.nested)
+
+
+def _fold(stmts):
+    """drop the dead branch of an ``if`` whose test compares constants (after a constant argument was substituted)"""
+    out = []
+    for s in stmts:
+        if isinstance(s, ast.If):
+            val = _const_test(s.test)
+            s.body = _fold(s.body)
+            s.orelse = _fold(s.orelse)
+            if val is True:
+                out.extend(s.body)
+                continue
+            if val is False:
+                out.extend(s.orelse)
+                continue
+        out.append(s)
+    return out
+
+
+def _const_test(e):
+    # len(x) is never negative
+    if isinstance(e, ast.Compare) and len(e.ops) == 1 and isinstance(e.left, ast.Call) and isinstance(e.left.func, ast.Name) and \
+            e.left.func.id == 'len' and isinstance(e.comparators[0], ast.Constant) and e.comparators[0].value == 0:
+        if isinstance(e.ops[0], ast.Lt):
+            return False
+        if isinstance(e.ops[0], ast.GtE):
+            return True
+    try:
+        if isinstance(e, ast.Compare) and len(e.ops) == 1:
+            a, b = ast.literal_eval(e.left), ast.literal_eval(e.comparators[0])
+            op = e.ops[0]
+            table = {ast.Lt: a < b, ast.LtE: a <= b, ast.Gt: a > b, ast.GtE: a >= b, ast.Eq: a == b, ast.NotEq: a != b} \
+                if isinstance(a, (int, float)) and isinstance(b, (int, float)) else {ast.Eq: a == b, ast.NotEq: a != b}
+            if isinstance(op, ast.Is):
+                return a is b if (a is None or b is None) else None
+            if isinstance(op, ast.IsNot):
+                return a is not b if (a is None or b is None) else None
+            return table.get(type(op))
+        if isinstance(e, ast.Constant):
+            return bool(e.value)
+    except (ValueError, TypeError, SyntaxError):
+        return None
+    return None
 
 
 class _Inliner:
@@ -43,14 +130,20 @@ class _Inliner:
         self.inlined = []
 
     def callee(self, call, scope):
-        if not (isinstance(call, ast.Call) and isinstance(call.func, ast.Name)):
+        if not isinstance(call, ast.Call):
             return None
         if any(isinstance(a, ast.Starred) for a in call.args) or any(k.arg is None for k in call.keywords):
             return None
-        g = self.mod.functions.get(call.func.id)
+        g = None
+        if isinstance(call.func, ast.Name):
+            g = self.mod.functions.get(call.func.id)
+        elif isinstance(call.func, ast.Attribute) and isinstance(call.func.value, ast.Name) and call.func.value.id == 'self' and self.f.cls is not None:
+            g = self.f.cls.methods.get(call.func.attr)      # a helper method of the same class (not an inherited or overridden one)
+            if g is not None and any(call.func.attr in c.methods for c in self.repo.subclasses(self.f.cls, strict=True)):
+                g = None
         if g is None or not inlinable(g, self.f) or g in scope:
             return None
-        ps = g.params
+        ps = g.params[1:] if g.cls is not None else g.params
         if len(call.args) > len(ps) or any(k.arg not in ps for k in call.keywords):
             return None
         return g
@@ -61,7 +154,7 @@ class _Inliner:
         k = self.counter
         if g not in self.inlined:
             self.inlined.append(g)
-        ps = g.params
+        ps = g.params[1:] if g.cls is not None else g.params
         a = g.node.args
         stored = {x.id for n in own_nodes(g.node) for x in ast.walk(n) if isinstance(x, ast.Name) and isinstance(x.ctx, (ast.Store, ast.Del))}
         stored |= {h.name for n in own_nodes(g.node) if isinstance(n, ast.ExceptHandler) and n.name for h in [n]}
@@ -104,11 +197,23 @@ class _Inliner:
                 return node
         body = [s for s in g.node.body if not (isinstance(s, ast.Expr) and isinstance(s.value, ast.Constant))]
         ret = None
-        if body and isinstance(body[-1], ast.Return):
+        early = any(isinstance(n, ast.Return) and n is not g.node.body[-1] for n in own_nodes(g.node))
+        if early:
+            rv = '_i%d_result' % k
+            body = single_exit(body, rv)
+            ret = ast.Name(id=rv, ctx=ast.Load())
+            for st_ in body:
+                ast.fix_missing_locations(ast.copy_location(st_, call))
+        elif body and isinstance(body[-1], ast.Return):
             ret = body[-1].value
             body = body[:-1]
         new = [Sub().visit(_clone(s)) for s in body]
         rexpr = Sub().visit(_clone(ret)) if ret is not None else None
+        for st_ in new + ([rexpr] if rexpr is not None else []):
+            for x in ast.walk(st_):
+                if not hasattr(x, '_from'):
+                    x._from = g             # provenance: which helper this node was pasted from (innermost)
+        new = _fold(new)
         new = self.expand(new, depth - 1, scope + [g])
         if rexpr is not None:
             # the returned expression may itself be an inlinable call
@@ -118,9 +223,52 @@ class _Inliner:
                 new = new + more
         return pre + new, rexpr
 
+    def hoist(self, s, depth, scope):
+        """helper calls nested in the expressions of a simple statement are taken out into ``_hN = helper(...)``
+        statements in front of it (not out of short-circuit operands, conditional expressions, lambdas, comprehensions)"""
+        if depth <= 0 or not isinstance(s, (ast.Expr, ast.Assign, ast.AugAssign, ast.Return, ast.If)):
+            return [], s
+        roots = [s.test] if isinstance(s, ast.If) else [s.value] if getattr(s, 'value', None) is not None else []
+        if isinstance(s, ast.Assign):
+            roots = [s.value] + [t for t in s.targets if not isinstance(t, ast.Name)]
+        pre = []
+
+        def visit(e, top):
+            # children first (evaluation order), then the node itself
+            if isinstance(e, (ast.BoolOp, ast.IfExp, ast.Lambda, ast.ListComp, ast.SetComp, ast.DictComp, ast.GeneratorExp)):
+                return e
+            for fld, val in ast.iter_fields(e):
+                if isinstance(val, ast.AST):
+                    setattr(e, fld, visit(val, False))
+                elif isinstance(val, list):
+                    setattr(e, fld, [visit(v, False) if isinstance(v, ast.AST) else v for v in val])
+            if isinstance(e, ast.Call) and not top and self.callee(e, scope) is not None:
+                self.counter += 1
+                name = '_h%d' % self.counter
+                st = ast.Assign(targets=[ast.Name(id=name, ctx=ast.Store())], value=e)
+                ast.fix_missing_locations(ast.copy_location(st, s))
+                pre.append(st)
+                return ast.copy_location(ast.Name(id=name, ctx=ast.Load()), e)
+            return e
+        for r in roots:
+            is_stmt_call = isinstance(r, ast.Call) and (r is getattr(s, 'value', None)) and not isinstance(s, ast.If)
+            new = visit(r, is_stmt_call)
+            if isinstance(s, ast.If):
+                s.test = new
+            elif r is getattr(s, 'value', None):
+                s.value = new
+            else:
+                s.targets = [new if t is r else t for t in s.targets]
+        return pre, s
+
     def expand(self, stmts, depth, scope):
         out = []
+        work = []
         for s in stmts:
+            pre, s2 = self.hoist(s, depth, scope)
+            work.extend(pre)
+            work.append(s2)
+        for s in work:
             call = kind = None
             if isinstance(s, ast.Expr) and isinstance(s.value, ast.Call):
                 call, kind = s.value, 'expr'
